@@ -253,14 +253,32 @@ class Harness:
             unpatch_clock()
             for mod, fname, orig in undo:
                 setattr(mod, fname, orig)
+        def judge_ensures(result):
+            ns["result"] = result
+            for cl in self.ensures:
+                names = {n.id for n in ast.walk(ast.parse(cl.text.strip(), mode="eval")) if isinstance(n, ast.Name)}
+                if names & set(missing_ghost):
+                    continue
+                try:
+                    ok = cl.post(ns, pres[cl.name])
+                except Exception as e:  # pylint: disable=broad-except
+                    return {"status": "failed", "clause": cl.name, "detail": f"clause raised {type(e).__name__}: {e}",
+                            "result": repr(result)[:400]}
+                if not ok:
+                    return {"status": "failed", "clause": cl.name, "result": repr(result)[:400]}
+            return {"status": "ok", "result": repr(result)[:200]}
         exc = None
         result = None
+        verdict = {}
         async def _call():
             # inside a running event loop (the code under test may create tasks); tasks left
             # over are cancelled when the loop closes
             r = self.fn(**args)
             if inspect.iscoroutine(r):
                 r = await r
+            # the postconditions are judged while the event loop is still running: asyncio.run() cancels the tasks
+            # the function created when it closes the loop, which must not be mistaken for the function's doing
+            verdict["v"] = judge_ensures(r)
             return r
         try:
             result = asyncio.run(_call())
@@ -289,19 +307,7 @@ class Harness:
                             "detail": f"raised {type(exc).__name__} outside its allowed condition"}
             return {"status": "failed", "clause": "no_unexpected_exception",
                     "detail": f"{type(exc).__name__}: {exc}"}
-        ns["result"] = result
-        for cl in self.ensures:
-            names = {n.id for n in ast.walk(ast.parse(cl.text.strip(), mode="eval")) if isinstance(n, ast.Name)}
-            if names & set(missing_ghost):
-                continue
-            try:
-                ok = cl.post(ns, pres[cl.name])
-            except Exception as e:  # pylint: disable=broad-except
-                return {"status": "failed", "clause": cl.name, "detail": f"clause raised {type(e).__name__}: {e}",
-                        "result": repr(result)[:400]}
-            if not ok:
-                return {"status": "failed", "clause": cl.name, "result": repr(result)[:400]}
-        return {"status": "ok", "result": repr(result)[:200]}
+        return verdict["v"]
 
     def patch_clock(self, ns):
         """datetime.now() inside the function under test returns the ghost instants now_0, now_1, .."""
